@@ -98,6 +98,10 @@ def gen_value(reg: Any, typ: Any, rnd: random.Random) -> Any:
         for k, t in typ.fields.items():
             object.__setattr__(o, k, gen_value(reg, t, rnd))
         return o
+    if isinstance(typ, api.GhostDevice):
+        from specs.mboot import FakeDevice
+
+        return FakeDevice(bytes(rnd.getrandbits(8) for _ in range(rnd.randrange(0, 80))))
     if isinstance(typ, api.Opaque):
         return None
     origin = typing.get_origin(typ)
